@@ -37,6 +37,18 @@ class Harness:
         self.track_results = False
         self.fns = {}
 
+    def reset(self):
+        with self.lock:
+            self.seq = 0
+            self.events = []
+            self.in_flight = 0
+            self.max_in_flight = 0
+            self.attempts = {}
+            self.ended_ok = {}
+            self.raised = {}
+            self.args_seen = {}
+            self.result_refs = {}
+
     # -- stamping
     def stamp(self, kind, nid, extra=None):
         with self.lock:
